@@ -466,8 +466,8 @@ Definition step (k : kf) (pick : N) (a : action) (st : state) : state :=
       (* the request is validated before anything is changed *)
       if forallb (fun c => tag_has_conv c t || (memN c (convs st) && negb (complex (t_def t)))) cs then
         let st1 := fold_left (fun s c => if memN c cs then s else detach s n c) (t_conv t) st in
-        let '(st2, ok) := attach_all st1 n cs in
-        if ok then start_converter st2 else st2
+        (* after the validation no attach can fail (Go returns before startConverterJobIfNeeded only on such an error) *)
+        start_converter (fst (attach_all st1 n cs))
       else st
     end
   | ABodyImport r =>
